@@ -20,7 +20,9 @@ import (
 	"github.com/grailbio/bigmachine/testsystem"
 	"github.com/grailbio/bigslice"
 	"github.com/grailbio/bigslice/frame"
+	"github.com/grailbio/bigslice/slicefunc"
 	"github.com/grailbio/bigslice/sliceio"
+	"github.com/grailbio/bigslice/slicetype"
 )
 
 // VerifEncodeInvocation gob-encodes inv exactly as the executor does (bigmachine.go:195-204).
@@ -206,3 +208,16 @@ func VerifSetRetryPolicy(p retry.Policy) retry.Policy {
 	retryPolicy = p
 	return old
 }
+
+// ---- C09: combining frames and combiners
+
+type VerifCombiningFrame = combiningFrame
+type VerifCombiner = combiner
+
+func VerifMakeCombiningFrame(typ slicetype.Type, comb slicefunc.Func, n, nscratch int) *VerifCombiningFrame {
+	return makeCombiningFrame(typ, comb, n, nscratch)
+}
+func VerifNewCombiner(typ slicetype.Type, name string, comb slicefunc.Func, targetSize int) (*VerifCombiner, error) {
+	return newCombiner(typ, name, comb, targetSize)
+}
+func VerifThreshold(c *VerifCombiningFrame) int { return c.threshold }
